@@ -9,7 +9,7 @@ from ..calls import callgraph
 from ..cfg import cfg_of
 from ..facts import (catalogue, emission_sites, live_function_keys, registry_model,
                      trivially_dead, value_set)
-from ..model import AnalysisError, text, walk_fn
+from ..model import AnalysisError, Undecided, text, walk_fn
 
 # Frozen on the pinned tree and confirmed by reading (DESIGN.md §4.2): for each
 # emitter unit the codes it is responsible for.  The unit is part of the
@@ -289,7 +289,7 @@ def run_rules_dispatch(prog, rr):
             elif cls_name == "Primary" and not (isinstance(r, tuple) and len(r) == 2 and not r[0]):
                 bad["state"].append(f"run_rules answers {r!r} for a {desc}")
     except Unsupported as e:
-        raise AnalysisError(f"{rr.key} is outside the evaluable subset of the analyser's interpreter: {e}")
+        raise Undecided(f"{rr.key} is outside the evaluable subset of the analyser's interpreter: {e}")
     # for the report: the recursive calls
     site = {}
     for n in walk_fn(rr.node):
